@@ -54,17 +54,19 @@ def outcome(r):
     return str(st)
 
 
-def matrix(sources, exe=None, in_process=6, processes=3, big=20000):
+def matrix(sources, exe=None, in_process=6, processes=3, big=20000, all_json=False):
     """sources: [{"src", "base"?}] -> list (aligned) of {outcome-key: {"count", "json"|None, "msg", "first"}}.
     A source longer than `big` bytes is repeated only twice per process.  Hangs / crashes are not this
-    oracle's business (c06 observes them): those outcomes are dropped."""
+    oracle's business (c06 observes them): those outcomes are dropped.  Outcomes are compared by the hash of the
+    output; the output text itself is only requested for the first compilation in each process unless `all_json`
+    (findings() compiles the few differing sources again with all_json to get every variant's text)."""
     exe = exe or compilerun.build()
     per = []
     for p in range(processes):
         cases = []
         for i, s in enumerate(sources):
             for k in range(in_process if len(s["src"]) <= big else 2):
-                c = {"id": f"{i}#{p}#{k}", "src": s["src"], "want_json": True}
+                c = {"id": f"{i}#{p}#{k}", "src": s["src"], "want_json": all_json or k == 0}
                 if s.get("base"):
                     c["base"] = s["base"]
                 cases.append(c)
@@ -93,6 +95,8 @@ def matrix(sources, exe=None, in_process=6, processes=3, big=20000):
                 e = out[i].setdefault(key, dict(count=0, json=r.get("json"), msg=r.get("msg", "")[:200],
                                                 line=r.get("line"), first=c["id"]))
                 e["count"] += 1
+                if e["json"] is None and r.get("json"):
+                    e["json"] = r["json"]
                 if r.get("same") is False:
                     # the second compilation inside inkcompile differed from the first: an outcome of its own
                     out[i].setdefault(key + "/second-differs", dict(count=0, json=None, msg="", line=None,
@@ -118,12 +122,24 @@ def json_diff(a, b, ctx=60):
     return dict(at=i, first=a[lo:i + ctx], second=b[lo:i + ctx])
 
 
-def findings(sources, mat, exe_drive=None, play_max=4):
+def findings(sources, mat, exe_drive=None, play_max=4, exe=None):
     """one finding per source with more than one outcome, smallest source first:
        {"source", "files", "outcomes": n, "counts", "bytes": diff of two outputs,
         "played": None | {"first": line, "second": line} (first differing transcript line of the two stories)}
     The differing stories of the `play_max` smallest sources are played; a played difference outranks a byte one."""
     out = []
+    # the text of every variant: compile the differing sources again, asking for all outputs
+    idx = [i for i, m in enumerate(mat) if len(m) >= 2 and
+           any(k.startswith("ok:") and "/" not in k and not v.get("json") for k, v in m.items())]
+    idx.sort(key=lambda i: len(sources[i]["src"]))
+    if idx[:play_max * 2]:
+        again = matrix([sources[i] for i in idx[:play_max * 2]], exe, in_process=12, processes=3, all_json=True)
+        for i, m2 in zip(idx, again):
+            for k, v in m2.items():
+                if k in mat[i] and not mat[i][k].get("json"):
+                    mat[i][k]["json"] = v.get("json")
+                elif k not in mat[i]:
+                    mat[i][k] = v
     for s, m in zip(sources, mat):
         keys = [k for k in m if not k.endswith("/second-differs")]
         if len(m) < 2:
@@ -147,6 +163,8 @@ def findings(sources, mat, exe_drive=None, play_max=4):
             t = play(o, f["script"], f["explore"], exe_drive)
             if t != base:
                 k = next((k for k, (x, y) in enumerate(zip(base, t)) if x != y), min(len(base), len(t)))
+                txt = lambda l: re.findall(r'text="((?:[^"\\]|\\.)*)"', l)
+                k = next((j for j, (x, y) in enumerate(zip(base, t)) if txt(x) != txt(y)), k)   # printed text first
                 f["played"] = dict(line=k, first=(base[k] if k < len(base) else "<end>")[:300],
                                    second=(t[k] if k < len(t) else "<end>")[:300])
                 break
